@@ -22,5 +22,6 @@ def check(ctx):
     # 'unaffected by set_mode on the Scanner / by earlier iterations': every new iterator works on a clone reset to mode 0
     from . import pC06
     pC06.fresh_iterator_rules(ctx)
+    pC06.mode_forward_rules(ctx)    # (C06.g: a set_mode reaches the object it was called on and nothing else — no mailbox another iterator reads)
     from .common import cache_foundation
     cache_foundation(ctx)
